@@ -140,8 +140,16 @@ type queryFn struct {
 }
 
 // commentQueryFns: the formatter methods that query the hidden channel around a token parameter, and their wrappers.
-func commentQueryFns(w *World) map[*ssa.Function]*queryFn {
-	out := map[*ssa.Function]*queryFn{}
+func commentQueryFns(w *World) map[*ssa.Function][]queryFn {
+	out := map[*ssa.Function][]queryFn{}
+	has := func(fn *ssa.Function, q queryFn) bool {
+		for _, x := range out[fn] {
+			if x == q {
+				return true
+			}
+		}
+		return false
+	}
 	fns := formatterFuncs(w)
 	isToken := func(t types.Type) bool { return strings.HasSuffix(types.TypeString(t, shortQual), "antlr.Token") }
 	for _, fn := range fns {
@@ -168,7 +176,9 @@ func commentQueryFns(w *World) map[*ssa.Function]*queryFn {
 					if name == "GetHiddenTokensToRight" {
 						k = "right"
 					}
-					out[fn] = &queryFn{k, i}
+					if !has(fn, queryFn{k, i}) {
+						out[fn] = append(out[fn], queryFn{k, i})
+					}
 				}
 			}
 		})
@@ -177,23 +187,25 @@ func commentQueryFns(w *World) map[*ssa.Function]*queryFn {
 	for changed {
 		changed = false
 		for _, fn := range fns {
-			if out[fn] != nil {
-				continue
-			}
 			forEachInstr(fn, func(b *ssa.BasicBlock, ins ssa.Instruction) {
 				c, ok := ins.(ssa.CallInstruction)
-				if !ok || out[fn] != nil {
+				if !ok {
 					return
 				}
 				f := c.Common().StaticCallee()
-				if f == nil || out[f] == nil || out[f].param >= len(c.Common().Args) {
+				if f == nil || f == fn {
 					return
 				}
-				a := stripIdentity(c.Common().Args[out[f].param])
-				for i, p := range fn.Params {
-					if a == ssa.Value(p) && isToken(p.Type()) {
-						out[fn] = &queryFn{out[f].kind, i}
-						changed = true
+				for _, q := range out[f] {
+					if q.param >= len(c.Common().Args) {
+						continue
+					}
+					a := stripIdentity(c.Common().Args[q.param])
+					for i, p := range fn.Params {
+						if a == ssa.Value(p) && isToken(p.Type()) && !has(fn, queryFn{q.kind, i}) {
+							out[fn] = append(out[fn], queryFn{q.kind, i})
+							changed = true
+						}
 					}
 				}
 			})
@@ -208,16 +220,31 @@ func collectFmtFacts(w *World, ctxs map[string]*CtxInfo) *fmtFacts {
 		leftAt: map[string]bool{}, rightAt: map[string]bool{}, leftStop: map[string]bool{}}
 	for _, fn := range formatterFuncs(w) {
 		handled := map[string]bool{}
-		forEachInstr(fn, func(b *ssa.BasicBlock, ins ssa.Instruction) {
-			if ta, ok := ins.(*ssa.TypeAssert); ok {
-				if n := grammarCtxName(ta.AssertedType); n != "" {
-					handled[n] = true
+		// type tests in this function and in the helpers it hands tree nodes to (not other visitor methods)
+		helperSet := map[*ssa.Function]bool{fn: true}
+		helpers := []*ssa.Function{fn}
+		for i := 0; i < len(helpers); i++ {
+			forEachInstr(helpers[i], func(_ *ssa.BasicBlock, ins ssa.Instruction) {
+				if c, ok := ins.(ssa.CallInstruction); ok {
+					if g := c.Common().StaticCallee(); g != nil && g.Pkg == w.Parser && !helperSet[g] && g.Blocks != nil && !strings.HasPrefix(g.Name(), "Visit") {
+						helperSet[g] = true
+						helpers = append(helpers, g)
+					}
 				}
-				if strings.HasSuffix(types.TypeString(ta.AssertedType, shortQual), "antlr.TerminalNode") {
-					handled["<terminal>"] = true
+			})
+		}
+		for _, hf := range helpers {
+			forEachInstr(hf, func(b *ssa.BasicBlock, ins ssa.Instruction) {
+				if ta, ok := ins.(*ssa.TypeAssert); ok {
+					if n := grammarCtxName(ta.AssertedType); n != "" {
+						handled[n] = true
+					}
+					if strings.HasSuffix(types.TypeString(ta.AssertedType, shortQual), "antlr.TerminalNode") {
+						handled["<terminal>"] = true
+					}
 				}
-			}
-		})
+			})
+		}
 		forEachInstr(fn, func(b *ssa.BasicBlock, ins ssa.Instruction) {
 			call, ok := ins.(*ssa.Call)
 			if !ok {
@@ -264,36 +291,41 @@ func collectFmtFacts(w *World, ctxs map[string]*CtxInfo) *fmtFacts {
 				}
 			}
 			// comment anchors (queries and their wrappers)
-			if f := cc.StaticCallee(); f != nil && queryFns[f] != nil && queryFns[f].param < len(cc.Args) {
-				if _, isParam := stripIdentity(cc.Args[queryFns[f].param]).(*ssa.Parameter); isParam && queryFns[fn] != nil {
-					return // inside a wrapper: the anchor is decided at the wrapper's call sites
-				}
-				qkind := queryFns[f].kind
-				arg := stripIdentity(cc.Args[queryFns[f].param])
-				tokCall, isCall := arg.(*ssa.Call)
-				which := ""
-				var trecv ssa.Value
-				if isCall {
-					if tokCall.Call.IsInvoke() {
-						which, trecv = tokCall.Call.Method.Name(), tokCall.Call.Value
-					} else if tf := tokCall.Call.StaticCallee(); tf != nil && len(tokCall.Call.Args) > 0 {
-						which, trecv = tf.Name(), tokCall.Call.Args[0]
+			if f := cc.StaticCallee(); f != nil {
+				for _, q := range queryFns[f] {
+					if q.param >= len(cc.Args) {
+						continue
 					}
-				}
-				if which != "GetStart" && which != "GetStop" {
-					ff.badAnchor = append(ff.badAnchor, fmt.Sprintf("%s: %s takes a token that is not ctx.GetStart()/ctx.GetStop() (%s) at %s", fnKey(fn), f.Name(), which, w.instrPos(ins)))
-					return
-				}
-				for _, c := range w.possibleCtxs(fn, trecv, ctxs, 0) {
-					switch {
-					case qkind == "left" && which == "GetStart":
-						ff.leftAt[c] = true
-					case qkind == "left" && which == "GetStop":
-						ff.leftStop[c] = true
-					case qkind == "right" && which == "GetStop":
-						ff.rightAt[c] = true
-					default:
-						ff.badAnchor = append(ff.badAnchor, fmt.Sprintf("%s: same-line right query anchored at a start token at %s", fnKey(fn), w.instrPos(ins)))
+					if _, isParam := stripIdentity(cc.Args[q.param]).(*ssa.Parameter); isParam && len(queryFns[fn]) > 0 {
+						continue // inside a wrapper: the anchor is decided at the wrapper's call sites
+					}
+					qkind := q.kind
+					arg := stripIdentity(cc.Args[q.param])
+					tokCall, isCall := arg.(*ssa.Call)
+					which := ""
+					var trecv ssa.Value
+					if isCall {
+						if tokCall.Call.IsInvoke() {
+							which, trecv = tokCall.Call.Method.Name(), tokCall.Call.Value
+						} else if tf := tokCall.Call.StaticCallee(); tf != nil && len(tokCall.Call.Args) > 0 {
+							which, trecv = tf.Name(), tokCall.Call.Args[0]
+						}
+					}
+					if which != "GetStart" && which != "GetStop" {
+						ff.badAnchor = append(ff.badAnchor, fmt.Sprintf("%s: %s takes a token that is not ctx.GetStart()/ctx.GetStop() (%s) at %s", fnKey(fn), f.Name(), which, w.instrPos(ins)))
+						continue
+					}
+					for _, c := range w.possibleCtxs(fn, trecv, ctxs, 0) {
+						switch {
+						case qkind == "left" && which == "GetStart":
+							ff.leftAt[c] = true
+						case qkind == "left" && which == "GetStop":
+							ff.leftStop[c] = true
+						case qkind == "right" && which == "GetStop":
+							ff.rightAt[c] = true
+						default:
+							ff.badAnchor = append(ff.badAnchor, fmt.Sprintf("%s: same-line right query anchored at a start token at %s", fnKey(fn), w.instrPos(ins)))
+						}
 					}
 				}
 			}
@@ -504,17 +536,48 @@ func runC09(w *World, r *Report) {
 	// end of input: a right-hand query without the same-line restriction, applied to the stop token of the whole input
 	eofOK := false
 	qf := commentQueryFns(w)
-	for f, q := range qf {
+	type fq struct {
+		f *ssa.Function
+		q queryFn
+	}
+	var fqs []fq
+	for f, qs := range qf {
+		for _, q := range qs {
+			fqs = append(fqs, fq{f, q})
+		}
+	}
+	for _, x := range fqs {
+		f, q := x.f, x.q
 		if q.kind != "right" {
 			continue
 		}
-		restricted := false
-		forEachInstr(f, func(b *ssa.BasicBlock, ins ssa.Instruction) {
-			if c, ok := ins.(*ssa.Call); ok && c.Call.IsInvoke() && c.Call.Method.Name() == "GetLine" {
-				restricted = true
+		var isRestricted func(f *ssa.Function, depth int) bool
+		isRestricted = func(f *ssa.Function, depth int) bool {
+			direct, viaAll, viaAny := false, true, false
+			for _, g := range append([]*ssa.Function{f}, f.AnonFuncs...) {
+				forEachInstr(g, func(b *ssa.BasicBlock, ins ssa.Instruction) {
+					c, ok := ins.(*ssa.Call)
+					if !ok {
+						return
+					}
+					if c.Call.IsInvoke() && c.Call.Method.Name() == "GetLine" {
+						direct = true
+					}
+					if callee := c.Call.StaticCallee(); callee != nil && callee != f && depth < 4 {
+						for _, cq := range qf[callee] {
+							if cq.kind == "right" {
+								viaAny = true
+								if !isRestricted(callee, depth+1) {
+									viaAll = false
+								}
+							}
+						}
+					}
+				})
 			}
-		})
-		if restricted {
+			return direct || (viaAny && viaAll)
+		}
+		if isRestricted(f, 0) {
 			continue
 		}
 		if n := w.CallGraph().Nodes[f]; n != nil {
@@ -784,7 +847,6 @@ func runC10(w *World, r *Report) {
 	}
 	r.assume("ANTLR's lexer maps equal character sequences to equal token sequences; hidden-channel queries return the comments adjacent to a token")
 }
-
 
 // isLineValue: v is a GetLine() result, possibly kept in a local variable or captured by a closure.
 func isLineValue(v ssa.Value, depth int) bool {
